@@ -12,5 +12,6 @@ TECHNIQUE = {
     'C04': 'static non-interference check: path enumeration of dataReceived in both modes (chunk-use discipline, dominance of header reads, layout offsets from the specification, length expression evaluated by constant folding, drain/recursion shape, mode-switch typestate)',
     'C10': 'static proof over all control-flow paths of the dispatcher: reply-count dataflow, addressing of every reply construction, guard dominance before user code, callback registration order',
     'C18': 'static decision procedure: validator AST translated to DFAs over a symbolic alphabet (regexes via re._parser), language inclusion both ways against the specification grammar with shortest witnesses',
+    'C17': 'static guard tables: accessor guards extracted by path enumeration and evaluated by constant folding over the finite access/notification vocabularies; sibling agreement of Get/GetAll; loop-shape rules for aggregation vs lookup',
     'C02': 'static conformance check of the extracted codec model against specification tables; padding function interpreted in the congruence domain mod 8',
 }
